@@ -33,6 +33,10 @@ def build_xgo(ctx):
     return out
 
 
+def _oct(m):
+    return "%04o" % m if isinstance(m, int) and 0 <= m < 4096 else "-"
+
+
 def lead_sigs(path):
     """Structural signatures of the design's violating crash points / final states."""
     sigs, n = set(), 0
@@ -47,7 +51,7 @@ def lead_sigs(path):
             if not r["durable"]:
                 sigs.add("crash-window:%s/%s:%s" % (before, r["before"], r["target"]))
             if not r["modeKept"]:
-                sigs.add("mode-changed:%s->%s" % (r["origMode"], r["mode"]))
+                sigs.add("mode-changed:%s->%s" % (_oct(r["origMode"]), _oct(r["mode"])))
     return sorted(sigs), n
 
 
@@ -110,7 +114,8 @@ def run(ctx):
     ctx.extra["confirmed_signatures"] = real
     ctx.exhaustive = True
     ctx.rule = ("every scenario of FmtCrash.tla's Scenarios set (file kind x mode x path form x flags [x TMPDIR on "
-                "another device]); per scenario the fault-free run and one run per FS-mutating call with an error "
+                "another device], modes with group/other write bits rotated over them, path = symbolic link abs/rel "
+                "given directly / found by the walk); per scenario the fault-free run and one run per FS-mutating call with an error "
                 "injected at it; per recorded trace every prefix (crash point before/after each call) and the final "
                 "state; a crash point counts as distinct by (scenario, injected fault, number of calls done)")
     ctx.assumptions += [
@@ -118,5 +123,6 @@ def run(ctx):
         "rename(2) and unlink(2) are atomic; a killed call did not happen (strace kills at syscall entry)",
         "one sample source per file kind (.xgo .gox .go), single write chunk in real runs (chunks 1..3 only in the design model)",
         "--mvgo moves the file on purpose: judged as (old name = original) or (new name = formatted); its mode is reported as drift only",
-        "umask 022, Linux, run as the current user",
+        "umask 022 (fixed by the harness, part of the model: open/creat apply mode & ~umask, chmod does not), Linux, run as the current user",
+        "a path that is a symbolic link is judged through the path: replacing the link by a regular file is accepted",
     ]
